@@ -84,43 +84,16 @@ PROPS["C13"] = {
 PROPS["C02"] = {
     "imports": VIEW_IMPORTS,
     "prelude": "Definition cfg := Cfg{TAG}.cfg.",
-    "level_text": "TODO",
-    "level_note": "TODO",
-    "trusted_base": COMMON_TB + ["Spec/Dis.v transcription of dis._unpack_opargs / get_instructions, compared with the real dis on every run (group spec-dis)"],
-    "assumptions": ["compiled code: operands below 2^31, EXTENDED_ARG only in front of opcodes with an argument"],
+    "level_text": "Theorem (K1) for every configuration and every code object satisfying the boolean view_wf: the decoded blocks read in order are exactly what dis reports "
+                  "(opcodes, resolved operands, jump targets as instruction indices with kind, line of the first code unit). view_wf is evaluated on every corpus object in the run "
+                  "(group wf-monitor), the Coq dis_view is compared with the real dis.get_instructions/co_lines/PyCode_Addr2Line (group spec-dis), pi_C02 of model and code compared (decode-view)",
+    "level_note": "nested code: the theorem is per code object with its constants already decoded (the same theorem applies to each nested object); constants are compared type- and bit-exactly by the oracle",
+    "trusted_base": COMMON_TB + ["Spec/Dis.v transcription of dis._unpack_opargs / get_instructions, compared with the real dis on every run (group spec-dis)",
+                                 "Spec/Lnotab.v readers (see C10)"],
+    "assumptions": ["compiled code satisfies view_wf: operands below 2^31, EXTENDED_ARG only in front of opcodes with an argument, jump targets at instruction starts, "
+                    "line table an assembler image covering the code (monitored: every corpus object is evaluated)"],
     "rule": "every code object of the corpus and of generated programs; distinct = distinct (co_code, name, firstlineno, line table)",
     "replay_hint": "compile the named source; compare CodeData.from_code(c).blocks flattened with dis.get_instructions(c) and co_lines()/PyCode_Addr2Line",
-    "claimed": False,
-}
-
-JSON_IMPORTS = DATA_IMPORTS + " Model.Json Model.JsonSer"
-PROPS["C07"] = {
-    "imports": JSON_IMPORTS,
-    "prelude": "Definition cfg := Cfg{TAG}.cfg.",
-    "level_text": "TODO", "level_note": "TODO",
-    "trusted_base": COMMON_TB + ["text layer of json/orjson, repr/ast.literal_eval and base64 are outside the model (identity stand-ins, canonicalised by the harness; their round trip is exercised by the oracle)"],
-    "assumptions": ["repr/literal_eval and base64 round-trip", "json.dumps/json.loads preserve the type and value of ints, finite floats, strings, lists, dicts"],
-    "rule": "every constant kind x every position (operand, default, tuple member, frozenset member, dead-code additional arg, docstring, class docstring), lone surrogates in every string position, "
-            "corpus and generated programs, decoded and normalized; distinct = distinct (origin, hash of data)",
-    "replay_hint": "compile the described source; d = CodeData.from_code(c); CodeData.from_json_data(json.loads(json.dumps(d.to_json_data(), allow_nan=False)))",
-    "claimed": False,
-}
-
-PROPS["C14"] = {
-    "imports": VIEW_IMPORTS, "prelude": "Definition cfg := Cfg{TAG}.cfg.",
-    "level_text": "TODO", "level_note": "TODO", "trusted_base": COMMON_TB, "assumptions": [],
-    "rule": "programs with nested code left unreferenced by dead-code elimination, duplicated finally bodies, equal sibling lambdas; every corpus code object with nested code; generated programs; "
-            "distinct = distinct (co_code, name, number of nested code objects)",
-    "replay_hint": "compile the named source; compare list(CodeData.from_code(c).all_code_data()) with a recursive walk of c.co_consts",
-    "claimed": False,
-}
-PROPS["C09"] = {
-    "imports": VIEW_IMPORTS, "prelude": "Definition cfg := Cfg{TAG}.cfg.",
-    "level_text": "TODO", "level_note": "TODO", "trusted_base": COMMON_TB + ["dis.get_instructions as independent reader of first-use ranks"], "assumptions": [],
-    "rule": "every corpus / generated code object and its canonical re-encoding (normalize().to_code()); every override on an in-place entry is tested by stripping it from all uses and re-encoding; "
-            "distinct = distinct (co_code, tables, canonical flag)",
-    "replay_hint": "compile the named source; inspect _index_override / _additional_args of CodeData.from_code(c)",
-    "claimed": False,
 }
 
 NOT_CLAIMED = {}
